@@ -299,3 +299,20 @@ Definition offending (sm : summary) : list wrec :=
 (* the DESIGN's straight-line checker: an operation list never writes through an alias of the input *)
 Definition no_write_to_alias (l : list eop) : bool :=
   input_clean (fst (analyse [] 1 (mkfdef 0 (seqs (map Op l))))).
+
+(* ---- a faster search for the summary table (Gauss-Seidel in a given order, typically callees first).  Like `solve`
+   it is only a SEARCH: what the theorems need is `consistent` of the table it returns. *)
+Fixpoint set_nth {A} (n : nat) (x : A) (l : list A) : list A :=
+  match l, n with
+  | [], _ => []
+  | _ :: tl, 0 => x :: tl
+  | y :: tl, S n' => y :: set_nth n' x tl
+  end.
+Definition gs_round (it : nat) (fdefs : list fdef) (order : list nat) (summ : list summary) : list summary :=
+  fold_left (fun sm i => set_nth i (merge_summary (fst (analyse sm it (nth i fdefs dfdef))) (nth i sm dsum)) sm) order summ.
+Fixpoint solve_gs (it : nat) (fdefs : list fdef) (order : list nat) (rounds : nat) (summ : list summary) : list summary :=
+  match rounds with
+  | 0 => summ
+  | S k => let nxt := gs_round it fdefs order summ in
+           if forallb2 sub_summary nxt summ then summ else solve_gs it fdefs order k nxt
+  end.
